@@ -171,7 +171,13 @@ def api_key(sig):
     if "null pointer" in w and re.search(r"struct \w+0_sock", w) and "nni_sock_create" in inj:
         return "sock-create-fini-before-init"
     if "inproc.c" in w and "inproc_pair" in w:
-        return "inproc-accept-null-pair"
+        return "inproc-pipe-close-null-pair"
+    if re.search(r"null pointer of type 'struct (tcptran_ep|ipc_ep|tlstran_ep|sfd_tran_ep)'", w):
+        return "pipe-create-failure-null-ep"
+    if sig["verdict"].startswith("NORECOVER") and "ws_start_read" in inj:
+        return "ws-recv-after-close-hangs"
+    if "heap-use-after-free" in w and "ws_start_read" in inj:
+        return "ws-start-read-enomem-uaf"      # rare race, not root-caused
     if "http_server.c" in w and "nni_http_server" in w:
         return "http-sconn-init-null-server"
     if "url.c" in w and "SEGV" in w:
@@ -638,6 +644,19 @@ def run_api(rep, tier, rng, bdir):
         path = rep.replay_file("api_badsize.txt", r["err"][:3000])
         rep.violation(path, "allocator contract: blocks freed with a size other than their allocated size, without any fault "
                       "(allocated, freed) = %s -- nni_sock s_size is never set" % sizes[:6], key="sock-free-size-zero")
+    # two nng_init/nng_fini cycles in one process, no fault: everything must be returned each time
+    try:
+        env = dict(os.environ, **ASAN_ENV)
+        env["ASAN_OPTIONS"] += ":detect_leaks=0"
+        pc = subprocess.run([binpath, "pair0:inproc", "cycles", "3"], capture_output=True, text=True, timeout=API_TIMEOUT, env=env, cwd=SCRATCH)
+        lives = re.findall(r"^K 0 hit=0 count=\d+ live=(\d+)/(\d+)", pc.stdout, re.M)
+        rep.cov["api_cycles_live"] = lives
+        if len(lives) == 3 and any(l[0] != "0" for l in lives):
+            path = rep.replay_file("api_cycles.txt", pc.stdout + "\n" + pc.stderr[-3000:])
+            rep.violation(path, "nng_init/nng_fini repeated in one process (no fault): blocks still live after nng_fini, per cycle %s "
+                          "-- static id maps are not registered again after nni_id_map_sys_fini" % lives, key="idmap-static-not-reregistered")
+    except subprocess.TimeoutExpired:
+        pass
     clusters = {}
     hit = 0
     past = 0
